@@ -51,11 +51,16 @@ var zzC14Progs = []string{
 	"test 1 2\nwhile true\n    print \"x\"\nend\n",
 	// 11: endless loop inside a function called from a loop; early return and break paths
 	"func spin n:num\n    while true\n        if n < 0\n            return\n        end\n        print n\n    end\nend\nfor i := range 2\n    spin i\nend\n",
+	// 12-15: long loops of every range kind whose body is only a comment: they must be interruptible
+	"for range 200\n    // wait\nend\nprint \"done\"\n",
+	"a := [1] * 200\nfor range a\n    // wait\nend\nprint \"done\"\n",
+	"s := \"0123456789\" + \"0123456789\"\ns = s + s + s + s + s + s + s + s + s + s\nfor range s\n\n    // wait\n\nend\nprint \"done\"\n",
+	"for range 200 0 -1\n    // wait\nend\nprint \"done\"\n",
 }
 
 // zzC14MinYields: a lower bound on the yields of the complete run (one per
 // loop iteration and per call), for the terminating programs.
-var zzC14MinYields = map[int]int{1: 3, 2: 3, 3: 6, 6: 4, 7: 15, 8: 4, 9: 15}
+var zzC14MinYields = map[int]int{1: 3, 2: 3, 3: 6, 6: 4, 7: 15, 8: 4, 9: 15, 12: 200, 13: 200, 14: 200, 15: 200}
 
 var zzC14Endless = map[int]bool{0: true, 4: true, 5: true, 10: true, 11: true}
 
@@ -175,5 +180,50 @@ func ZZC14Event() {
 		zzAssert(strings.Join(zzTraceEffects(p.trace), "|") == "print:a 0\n|print:a 1\n|print:a 2\n", "C14 event: handler effects")
 	}
 	_ = strconv.Itoa
+	zzWitness("end")
+}
+
+
+// ZZC14Density: one more loop iteration (or one more call) means at least one
+// more yield — for every loop kind and every kind of body, including bodies
+// that hold only comments or blank lines. The same program is run with n and
+// with n+d iterations and the yields are counted.
+func ZZC14Density() {
+	loop := zzChoice("loop", 7)
+	body := []string{"    // wait\n", "\n    // wait\n\n", "    print \"x\"\n", "    nop\n", "    if true\n        // nothing\n    end\n"}[zzChoice("body", 5)]
+	n := 1 + zzChoice("n", 2)
+	d := 1 + zzChoice("d", 3)
+	mk := func(n int) string {
+		ns := strconv.Itoa(n)
+		pre := "func nop\n    // nothing\nend\nnop\n"
+		switch loop {
+		case 0:
+			return pre + "for range " + ns + "\n" + body + "end\n"
+		case 1:
+			return pre + "for range " + ns + " 0 -1\n" + body + "end\n"
+		case 2:
+			return pre + "for range [0]*" + ns + "\n" + body + "end\n"
+		case 3:
+			return pre + "for range \"" + strings.Repeat("ñ", n) + "\"\n" + body + "end\n"
+		case 4:
+			m := ""
+			for k := 0; k < n; k++ {
+				m += "k" + strconv.Itoa(k) + ":1 "
+			}
+			return pre + "for range {" + m + "}\n" + body + "end\n"
+		case 5:
+			return pre + "i := 0\nwhile i < " + ns + "\n    i = i + 1\n" + body + "end\n"
+		}
+		// 6: recursion depth n: one more call, one more yield
+		return pre + "func r k:num\n    if k > 0\n        r k-1\n    end\nend\nr " + ns + "\n"
+	}
+	_, y1, _, err1 := zzRunStopped(mk(n), -1)
+	_, y2, _, err2 := zzRunStopped(mk(n+d), -1)
+	zzAssert(err1 == nil && err2 == nil, "C14 density: loop programs run")
+	if y2.n-y1.n < d {
+		zzLog("C14 density: " + strconv.Itoa(y1.n) + " yields for n=" + strconv.Itoa(n) + ", " + strconv.Itoa(y2.n) + " for n=" + strconv.Itoa(n+d) + "\n" + mk(n+d))
+	}
+	zzAssert(y2.n-y1.n >= d, "C14 density: the yielder is called at least once per additional loop iteration / call, whatever the loop body holds")
+	zzReach("density-ok")
 	zzWitness("end")
 }
